@@ -103,6 +103,7 @@ type c21Broker struct {
 	c      c21Case
 	mu     sync.Mutex
 	frames []c21Frame
+	bad    []string // byte sequences read where a request frame was expected
 	conns  []net.Conn
 	dials  int
 }
@@ -143,6 +144,14 @@ func (s *c21Broker) serve(conn net.Conn, id int) {
 		}
 		n := int32(binary.BigEndian.Uint32(sz[:]))
 		if n < 8 || n > 1<<20 {
+			// not a request frame: remember what followed, then drop the
+			// connection like a broker would
+			var next [8]byte
+			conn.SetReadDeadline(time.Now().Add(time.Second))
+			k, _ := io.ReadFull(conn, next[:])
+			s.mu.Lock()
+			s.bad = append(s.bad, fmt.Sprintf("size field %d followed by % x", n, next[:k]))
+			s.mu.Unlock()
 			return
 		}
 		buf := make([]byte, n)
@@ -264,7 +273,8 @@ func c21DefaultResponse(key, ver int16, corr int32) []byte {
 
 type c21Obs struct {
 	Frames   []c21Frame `json:"frames"`
-	Ver      int16      `json:"ver"`      // header version of the first non-handshake frame of key K; -1 if none
+	Bad      []string   `json:"unframed,omitempty"` // bytes the broker read where a request frame was expected
+	Ver      int16      `json:"ver"`                // header version of the first non-handshake frame of key K; -1 if none
 	NK       int        `json:"n_k"`      // number of non-handshake frames of key K
 	Err      string     `json:"err"`      // error text of the call ("" = nil)
 	Class    string     `json:"class"`    // outcome class of the call
@@ -416,6 +426,7 @@ func c21Run(t *testing.T, c c21Case) (o c21Obs) {
 
 		srv.mu.Lock()
 		o.Frames = append([]c21Frame(nil), srv.frames...)
+		o.Bad = append([]string(nil), srv.bad...)
 		o.Dials = srv.dials
 		srv.mu.Unlock()
 		for _, f := range o.Frames {
@@ -566,7 +577,12 @@ func c21Judge(c c21Case, o c21Obs) (vs []c21Verdict) {
 		}
 	}
 	switch {
-	case !exists && o.NK > 0:
+	case !exists && (o.NK > 0 || len(o.Bad) > 0):
+		wrote := fmt.Sprintf("a v%d request was written", o.Ver)
+		unframed := o.NK == 0
+		if unframed {
+			wrote = "the client wrote bytes that are not a request frame (" + strings.Join(o.Bad, "; ") + ")"
+		}
 		cls := "written-though-no-version-exists"
 		switch {
 		case c.Broker == c21ModeController || c.Broker == c21ModeOmitted && c.Key == 0:
@@ -576,13 +592,17 @@ func c21Judge(c c21Case, o c21Obs) (vs []c21Verdict) {
 			cls = "written-though-broker-omits-key"
 		case c.UMax == c21Missing || strings.HasPrefix(why, "the key is not in"):
 			cls = "written-though-unknown-to-user-max"
+		case unframed:
+			cls += "/unframed"
 		default:
 			cls += "/" + c21Which(c, o.Ver)
 		}
-		vs = append(vs, c21Verdict{cls, fmt.Sprintf("no version satisfies all bounds (%s) but a v%d request was written (call returned: %s %q)", why, o.Ver, o.Class, o.Err)})
+		vs = append(vs, c21Verdict{cls, fmt.Sprintf("no version satisfies all bounds (%s) but %s (call returned: %s %q)", why, wrote, o.Class, o.Err)})
 	case !exists && o.Class == "ok":
 		vs = append(vs, c21Verdict{"no-error-though-no-version-exists", fmt.Sprintf("no version satisfies all bounds (%s), nothing was written, but the call returned no error", why)})
 	case !exists:
+	case o.NK == 0 && len(o.Bad) > 0:
+		vs = append(vs, c21Verdict{"unframed-request-written", fmt.Sprintf("v%d satisfies all bounds, but what the client wrote is not a request frame: the broker read %s (call returned: %s %q)", want, strings.Join(o.Bad, "; "), o.Class, o.Err)})
 	case o.NK == 0:
 		vs = append(vs, c21Verdict{"not-written", fmt.Sprintf("v%d satisfies all bounds but no request was written (call returned: %s %q)", want, o.Class, o.Err)})
 	case o.Ver != want:
